@@ -12,13 +12,18 @@ def vkOf (base : String) : VK :=
 
 def mkVK (j : Json) : Option VK := some (vkOf (jstr j "base"))
 
+partial def multiNames (j : Json) : List Tok :=
+  (if jstr j "k" = "list" || jstr j "k" = "leaf-list" then [bytesOf (jstr j "n")] else []) ++ (jarr j "kids").flatMap multiNames
+
 partial def userOrdered (j : Json) : List Tok :=
   (if jstr j "ordby" = "user" then [bytesOf (jstr j "n")] else []) ++ (jarr j "kids").flatMap userOrdered
 
 /-- the harness's canonical walk: order kept where the schema says ordered-by user, sorted elsewhere -/
-partial def walkOrd (user : List Tok) (isRoot : Bool) : DN → String
+partial def walkOrd (user multi : List Tok) (isRoot : Bool) : DN → String
   | .mk n kids vals =>
-    let ks := kids.map (walkOrd user false)
+    -- a list or leaf-list node without entries says what its absence says
+    let kids := kids.filter fun | .mk kn kk kv => !(multi.contains kn && kk.isEmpty && kv.isEmpty)
+    let ks := kids.map (walkOrd user multi false)
     let ks := if user.contains n then ks else sortStrs ks
     let vs := vals.map Y.hexOf
     let vs := if user.contains n then vs else sortStrs vs
@@ -52,13 +57,14 @@ def handle (j : Json) : List (String × Json) :=
   | some top =>
     let root := loadDN (jobj j "data")
     let user := (jarr j "top").flatMap userOrdered
-    let want := walkOrd user true root
+    let multi := (jarr j "top").flatMap multiNames
+    let want := walkOrd user multi true root
     let mods := (jarr j "top").flatMap (modPaths "m" [])
     let mo : List Tok → Tok := fun p => (mods.lookup p).getD (bytesOf "m")
     let jr := toJ id true mo top root
     let jp := toJ id false mo top root
     let back (o : Option DN) := match o with
-      | some d => if walkOrd user true d = want then "same" else "DIFF " ++ walkOrd user true d
+      | some d => if walkOrd user multi true d = want then "same" else "DIFF " ++ walkOrd user multi true d
       | none => "decode-err"
     let m := "\n".intercalate
       ["tree:" ++ want, "rfc7951:bytes:" ++ canonJ jr, "rfc7951:" ++ back (fromJ top jr),
